@@ -97,6 +97,11 @@ def programs(draw, base):
             replaced[0] = force_cond
     nnew = draw(st.integers(1, 3))
     news = NEWNAMES[:nnew]
+    same_name = draw(st.integers(0, 3)) == 0
+    if same_name:
+        # a new parameter may reuse the name of the base parameter it replaces ("radius" redefined as the outer
+        # radius, a length given in nm, ...): the equation for that name is then applied to the new value
+        news = [replaced[0]] + news[1:]
     ndef = {n: S.sig(draw(st.sampled_from([1.0, 50.0, 200.0, 1e4])), 3) for n in news}
     nvars = draw(st.integers(0, 2))
     lines, exprs = [], {}
@@ -113,7 +118,7 @@ def programs(draw, base):
         lines.append((vn, e))
         varnames.append(vn)
     defaults = info.parameters.defaults
-    invalid_class = draw(st.integers(0, 5)) == 0
+    invalid_class = draw(st.integers(0, 3)) == 0
     for b in replaced:
         D = defaults[b]
         kind = draw(st.sampled_from(["affine", "power", "var", "cond"]))
@@ -158,7 +163,7 @@ def programs(draw, base):
     new_type = draw(st.sampled_from(["volume", "volume", ""]))
     # given a name of its own, or left with the default name that every reparameterisation of this base shares
     named = draw(st.booleans())
-    return {"named": named, "base": base, "replaced": replaced, "new": news, "new_default": ndef, "lines": lines, "text": text,
+    return {"named": named, "same_name": same_name, "base": base, "replaced": replaced, "new": news, "new_default": ndef, "lines": lines, "text": text,
             "insert_after": insert_after, "nvars": nvars, "invalid_class": invalid_class, "new_type": new_type}
 
 
@@ -202,9 +207,12 @@ def translate(prog, x):
     base_vals = {}
     for name, e in prog["lines"]:
         v = evaluate(_tuplify(e), env_)
-        env_[name] = v
         if name in prog["replaced"]:
+            # documented: expressions use new parameters, untouched base parameters and earlier intermediates,
+            # never a replaced parameter - so a name shared by a new and a replaced parameter means the new one
             base_vals[name] = v
+        else:
+            env_[name] = v
     return base_vals
 
 
@@ -242,6 +250,8 @@ def check_reparam(case, rec):
         rec.cls("new-parameters-not-size-typed")
     if not prog.get("named", True):
         rec.cls("default-model-name")
+    if prog.get("same_name"):
+        rec.cls("new-parameter-reuses-replaced-name")
     if case["pd"]:
         rec.cls("dispersity-on-new")
     rec.nontrivial(prog["nvars"] >= 1 or len(prog["replaced"]) >= 2 or bool(case["pd"]),
@@ -250,17 +260,17 @@ def check_reparam(case, rec):
     names = [p.id for p in info.parameters.kernel_parameters]
     bpars = {p.id: p for p in binfo.parameters.kernel_parameters}
     untouched = [p.id for p in binfo.parameters.kernel_parameters if p.id not in prog["replaced"]]
-    kept = [n for n in names if n in bpars]
+    kept = [n for n in names if n in bpars and n not in prog["new"]]
     if kept != untouched:
         rec.fail("table:order", "untouched base parameters %r appear as %r" % (untouched, kept))
     for p in info.parameters.kernel_parameters:
-        if p.id in bpars:
+        if p.id in bpars and p.id not in prog["new"]:
             b = bpars[p.id]
             if (p.name, p.units, tuple(p.limits), p.type, p.default) != (b.name, b.units, tuple(b.limits), b.type, b.default):
                 rec.fail("table:attributes", "%s changed: %r" % (p.id, (p.name, p.units, p.limits, p.type, p.default)))
-    if sorted(n for n in names if n not in bpars) != sorted(prog["new"]):
+    if sorted(n for n in names if n not in bpars or n in prog["new"]) != sorted(prog["new"]):
         rec.fail("table:new", "new parameters %r in table %r" % (prog["new"], names))
-    if any(r in names for r in prog["replaced"]):
+    if any(r in names and r not in prog["new"] for r in prog["replaced"]):
         rec.fail("table:replaced-still-present", "%r in %r" % (prog["replaced"], names))
     if not prog["insert_after"]:
         # documented default: the new parameters replace the old ones in their original position
@@ -385,4 +395,4 @@ def plan(tier):
 def run_shard(ctx, spec):
     quick = ctx.tier == "quick"
     for i, base in enumerate(spec["bases"]):
-        ctx.explore("reparam", cases(base), 45 if quick else 1500, salt=i + 10 * spec["k"], shrink_examples=30)
+        ctx.explore("reparam", cases(base), 70 if quick else 1500, salt=i + 10 * spec["k"], shrink_examples=30)
